@@ -1,7 +1,7 @@
-BASE_ASSUMPTIONS = ["z3 4.8.12 is sound for the QF_NRA / QF_FP queries it answers (unknown answers are over-approximated as 'both branches feasible')",
+BASE_ASSUMPTIONS = ["z3 5.1.0 is sound for the QF_NRA / QF_FP queries it answers (unknown answers are over-approximated as 'both branches feasible')",
                     "clang-14 -O1 LLVM IR (no fast-math, FP contraction off, no vectorisation) is taken as the semantics of the C++ sources",
                     "engine S pass+runtime faithfully redirect double operations (validated on every run of ./check selftest by pushing the repository's own tests through the instrumented library)",
                     "REAL-mode jobs decide exact real arithmetic: IEEE rounding is outside those claims"]
 TECH = "symbolic execution of the LLVM-IR-instrumented real code; path conditions and assertions decided by z3"
-NOTE = ("Trusted: clang-14 IR as semantics, the SymFP pass + runtime, z3 4.8.12; REAL-mode jobs exclude IEEE rounding; bounds and the parts of the statement "
+NOTE = ("Trusted: clang-14 IR as semantics, the SymFP pass + runtime, z3 5.1.0; REAL-mode jobs exclude IEEE rounding; bounds and the parts of the statement "
         "outside the claim are listed in the evidence file (coverage.bounds / coverage.outside_the_claim).")
